@@ -20,7 +20,8 @@ pub fn def() -> PropDef {
         profiles: &["checked", "fast"],
         abort_is_violation: true,
         rule: "all input classes of C01 plus a hostile class (huge declared counts in every header field, 20-40 \
-               digit numbers, over-long binary varints, arbitrary tails) for every parser (streaming and \
+               digit numbers, over-long binary varints, arbitrary tails), documents behind a byte order mark or \
+               stray line end, and one short token repeated 10^3..10^6 times inside a valid document, for every parser (streaming and \
                collecting parse()), literal type and config, delivered one-shot or through a generated feed, in \
                a build with overflow checks + debug assertions and in a plain release build. Each case runs in an \
                isolated worker process with a counting allocator and a CPU watchdog. Oracle: the outcome is a \
@@ -64,7 +65,7 @@ pub fn check(c: &Case, obs: &mut Obs) -> CheckResult {
         Final::Panic { .. } => "outcome/panic",
     });
     let past_header = t.item_count >= 1 || matches!(&t.fin, Final::Syntax { line, .. } if *line > 1);
-    if past_header || c.input.class == "hostile" {
+    if past_header || c.input.class == "hostile" || c.input.class == "repeated-token" {
         obs.nontrivial();
     }
     if let Final::Panic { msg, loc } = &t.fin {
